@@ -18,7 +18,7 @@ func TestVerif_C12_Namespaces(t *testing.T) {
 	seed := kit.Seed(12)
 	shard, shards := kit.Shard()
 	r := kit.NewResult(t, "c12-namespaces", seed,
-		"for every generated world: every token (root-policy token of each namespace, tokens holding a namespace-wide policy, a single-mount policy, a policy that names a child namespace, a '+' segment policy; all without the default policy) x every namespace x its recording mounts x {update, read, list} x every spelling of the namespace (header, path, split, 'root' header) is sent through Core.HandleRequest; the reference authoriser (request namespace must be the token's namespace or a descendant AND a namespace-qualified policy path must match; nothing is served while the namespace of the request or of the token is sealed) predicts whether the backend handler may run; then each sealable namespace is sealed in turn, the matrix is repeated for it and the physical log must show no key of the sealed subtree, and after unsealing the earlier data must be back behind the same confinement; a cell is non-trivial when token namespace and request namespace differ or a seal is involved")
+		"for every generated world: every token (root-policy token of each namespace, tokens holding a namespace-wide policy, a single-mount policy, a policy that names a child namespace, a '+' segment policy; all without the default policy) x every namespace x its recording mounts x {update, read, list} x every spelling of the namespace (header, path, split, 'root' header) is sent through Core.HandleRequest; the reference authoriser (request namespace must be the token's namespace or a descendant AND a namespace-qualified policy path must match; nothing is served while the namespace of the request or of the token is sealed) predicts whether the backend handler may run; arbitrary header/path combinations (unknown, prefix-related, traversal-carrying, doubled namespace parts) are resolved by a reference resolver and must be served by exactly the mount it names; tokens whose only policy source is identity-group membership are checked against the default group-policy application mode; then each sealable namespace is sealed in turn, the matrix is repeated for it and the physical log must show no key of the sealed subtree, and after unsealing the earlier data must be back behind the same confinement; a cell is non-trivial when token namespace and request namespace differ or a seal is involved")
 	defer r.Write(t)
 	topos := kit.N(5, 120)
 	for ti := 0; ti < topos; ti++ {
@@ -35,20 +35,23 @@ func TestVerif_C12_Namespaces(t *testing.T) {
 			break
 		}
 	}
-	r.Require("matrix_cells", 1500)
-	r.Require("cells_expected_allowed_and_served", 300)
-	r.Require("cells_expected_denied_and_refused", 800)
-	r.Require("denied_because_token_namespace_not_ancestor", 300)
-	r.Require("denied_root_policy_outside_subtree", 30)
-	r.Require("denied_because_no_policy_match", 100)
-	r.Require("allowed_into_descendant_namespace", 50)
-	r.Require("denied_because_sealed", 100)
-	r.Require("sealed_phases", 1)
-	r.Require("data_back_after_unseal", 3)
-	r.Require("spellings_compared", 300)
-	r.Require("group_member_tokens", 4)
-	r.Require("group_cells", 40)
-	r.Require("sibling_namespaces_with_prefix_related_names", 1)
+	r.Require("matrix_cells", 15000)
+	r.Require("cells_expected_allowed_and_served", 2500)
+	r.Require("cells_expected_denied_and_refused", 12000)
+	r.Require("denied_because_token_namespace_not_ancestor", 5000)
+	r.Require("denied_root_policy_outside_subtree", 1200)
+	r.Require("denied_because_no_policy_match", 2500)
+	r.Require("allowed_into_descendant_namespace", 1400)
+	r.Require("denied_because_sealed", 4500)
+	r.Require("sealed_phases", 4)
+	r.Require("data_back_after_unseal", 35)
+	r.Require("spellings_compared", 2800)
+	r.Require("header_path_combinations", 1500)
+	r.Require("combinations_served", 100)
+	r.Require("combinations_with_unknown_or_mismatched_namespace", 300)
+	r.Require("group_member_tokens", 50)
+	r.Require("group_cells", 1400)
+	r.Require("sibling_namespaces_with_prefix_related_names", 3)
 }
 
 type c12NSRun struct {
@@ -100,6 +103,7 @@ func c12NSCase(t *testing.T, r *kit.Result, rng *kit.Rand, caseID string, transa
 		s.written[m] = c
 	}
 	s.matrix("open", nil)
+	s.combos(kit.N(600, 1500))
 	s.groups()
 	// sealed phases
 	var sealable []*c12NS
@@ -425,5 +429,171 @@ func (s *c12NSRun) groups() {
 	}
 	for _, mb := range members {
 		mb.tok.Dead = true // not part of the later matrices
+	}
+}
+
+// c12Resolve is the reference resolution of a (namespace header, request path)
+// pair, written from the documentation: the header is canonicalised (one leading
+// slash dropped, "." / ".." / empty segments resolved, trailing slash added,
+// "root" = root namespace), header and path are concatenated, the deepest
+// namespace whose path is a prefix of the result is the request namespace
+// provided the whole header was consumed, and inside that namespace the mount
+// whose path is a prefix of the remainder serves the request.
+func (w *c12World) c12Resolve(header, reqPath string) (ns *c12NS, rest string, m *c12Mount) {
+	h := strings.TrimPrefix(header, "/")
+	hc, above := c12Clean(h)
+	if above {
+		return nil, "", nil
+	}
+	if hc != "" && !strings.HasSuffix(hc, "/") {
+		hc += "/"
+	}
+	if hc == "root/" {
+		hc = ""
+	}
+	full := hc + reqPath
+	ns = w.root
+	for _, n := range w.nss {
+		if n.Path != "" && strings.HasPrefix(full, n.Path) && len(n.Path) > len(ns.Path) {
+			// a namespace unknown to the core (see unsealTree) and everything below it cannot be addressed
+			lost := false
+			for x := n; x != nil; x = x.Parent {
+				lost = lost || x.Lost
+			}
+			if !lost {
+				ns = n
+			}
+		}
+	}
+	if !strings.HasPrefix(ns.Path, hc) {
+		return nil, "", nil
+	}
+	rest = full[len(ns.Path):]
+	for _, c := range w.mounts {
+		if !c.Dead && c.NS == ns && strings.HasPrefix(rest, c.api()) && (m == nil || len(c.api()) > len(m.api())) {
+			m = c
+		}
+	}
+	return ns, rest, m
+}
+
+// combos: arbitrary header / path combinations, including headers naming
+// unknown namespaces, prefix-related names, traversal segments in the header
+// and paths that carry another namespace's path.
+func (s *c12NSRun) combos(n int) {
+	var recs []*c12Mount
+	for _, m := range s.liveMounts(c12Rec) {
+		if s.written[m] != "" {
+			recs = append(recs, m)
+		}
+	}
+	if len(recs) == 0 {
+		return
+	}
+	var toks []*c12Tok
+	for _, t := range s.toks {
+		if !t.Dead {
+			toks = append(toks, t)
+		}
+	}
+	nsPaths := []string{""}
+	for _, x := range s.nss {
+		if x.Path != "" {
+			nsPaths = append(nsPaths, x.Path)
+		}
+	}
+	for i := 0; i < n; i++ {
+		M := recs[s.rng.Intn(len(recs))]
+		tok := toks[s.rng.Intn(len(toks))]
+		hp := nsPaths[s.rng.Intn(len(nsPaths))]
+		header := hp
+		switch s.rng.Intn(12) {
+		case 0:
+			header = "/" + strings.TrimSuffix(hp, "/")
+		case 1:
+			header = strings.TrimSuffix(hp, "/")
+		case 2:
+			header = "root"
+		case 3:
+			header = hp + "zz/"
+		case 4:
+			header = "zz/" + hp
+		case 5:
+			if len(hp) > 2 {
+				header = hp[:len(hp)-2] // "ab/" -> "a"
+			}
+		case 6:
+			header = hp + "../" + nsPaths[s.rng.Intn(len(nsPaths))]
+		case 7:
+			header = "../" + hp
+		case 8:
+			header = strings.ReplaceAll(hp, "/", "//")
+		case 9:
+			header = hp + "./"
+		}
+		pp := nsPaths[s.rng.Intn(len(nsPaths))]
+		if s.rng.Chance(1, 2) {
+			// make the combination likely to be meaningful: the path completes the header to M's namespace
+			if strings.HasPrefix(M.NS.Path, hp) {
+				pp = strings.TrimPrefix(M.NS.Path, hp)
+			}
+		}
+		op := []logical.Operation{logical.ReadOperation, logical.UpdateOperation, logical.ListOperation}[s.rng.Intn(3)]
+		p := pp + M.api() + "data/" + M.Tag + "-nm"
+		if op == logical.ListOperation {
+			p = pp + M.api() + "data/"
+		}
+		rns, rest, rm := s.c12Resolve(header, p)
+		if op == logical.UpdateOperation && rm != M {
+			op = logical.ReadOperation // never store a name carrying M's marker through another mount
+		}
+		q := &c12Req{Kind: "combo", Op: op, Tok: tok, N: rns, M: rm, Form: "combo", Header: header, Path: p}
+		if rm != nil {
+			q.Marker = rm.Tag
+		}
+		if op == logical.UpdateOperation {
+			v := "x"
+			if rm != nil && s.written[rm] != "" && strings.HasSuffix(rest, rm.Tag+"-nm") {
+				v = s.written[rm]
+			}
+			q.Data = map[string]any{"v": v}
+		}
+		s.do(q)
+		s.r.Count("header_path_combinations", 1)
+		if rns == nil || rm != M {
+			s.r.Count("combinations_with_unknown_or_mismatched_namespace", 1)
+		}
+		handled, at := q.handled()
+		if rns != nil && !rns.effSealed() && !tok.NS.effSealed() {
+			s.checkStorage(q)
+		} else {
+			s.checkSealedUntouched(q)
+		}
+		expected := rns != nil && rm != nil && c12Rec(rm) && !rns.effSealed() && !tok.NS.effSealed() && tok.grants(rns, rest) && strings.HasPrefix(rest, rm.api()+"data")
+		s.r.Nontrivial(fmt.Sprintf("combo|%v|%v|%v|%s|%d", rns != nil, rm == M, expected, tok.Kind, s.rng.Intn(1)))
+		ev := map[string]any{"request": q, "token": tok, "resolved_namespace": c12NSPath(rns), "resolved_rest": rest, "outcome": c12Short(q.outcome())}
+		switch {
+		case handled && rm != nil && at != rns.Path+rm.api(), handled && rm == nil:
+			s.violate("C12-misrouted-request", fmt.Sprintf("header %q path %q resolves to namespace %q, mount %v, but the request was handled by the mount at %q", header, p, c12NSPath(rns), rm, at), ev)
+		case handled && !expected:
+			class := "C12-access-without-policy"
+			switch {
+			case rns.effSealed() || tok.NS.effSealed():
+				class = "C12-sealed-namespace-access"
+			case !rns.under(tok.NS) && tok.Root:
+				class = "C12-root-policy-outside-subtree"
+			case !rns.under(tok.NS):
+				class = "C12-cross-namespace-access"
+			}
+			s.violate(class, fmt.Sprintf("[combo] token %s (%s, namespace %q) was served %s header %q path %q (namespace %q, mount %v) against the reference", tok.Name, tok.Kind, tok.NS.Path, op, header, p, rns.Path, rm), ev)
+		case handled:
+			s.r.Count("combinations_served", 1)
+			s.scanResponse(q, false)
+		case expected:
+			s.r.Count("combinations_expected_served_but_refused", 1)
+			s.r.Inconc("[%s combo] reference expects token %s to be served %s header %q path %q (namespace %q, rest %q) but it was refused: %s", s.caseID, tok.Name, op, header, p, rns.Path, rest, c12Short(q.outcome()))
+		default:
+			s.r.Count("combinations_refused", 1)
+		}
 	}
 }
